@@ -95,7 +95,7 @@ def run(rep, tier, only=None):
         sub_rep.known, sub_rep.fixed = verdict.load_known_findings(pid)
         sub_rep.quiet = True
         try:
-            mod.run(sub_rep, 'quick', only={'C12': 'A1', 'C07': 'pow2', 'C13': 'tailmatch', 'C24': 'match', 'C06': 'parse', 'C19': 'intint', 'C18': 'cint'}.get(pid))
+            mod.run(sub_rep, 'quick', only={'C16': 'nomerge', 'C12': 'A1', 'C07': 'pow2', 'C13': 'tailmatch', 'C24': 'match', 'C06': 'parse', 'C19': 'intint', 'C18': 'cint'}.get(pid))
         except Exception as e:
             rep.harness_error('sub-run of %s failed: %r' % (pid, e))
             continue
